@@ -188,20 +188,31 @@ let main_seq file do_abs =
          let reply_ok, detail =
            match !call, !oreply with
            | Some c, Some o ->
-             let h = hint_of o in
+             let h = hint_of c o in
              let (s', r) = step !params !st c h in
              st := s';
              let (pfb, pfi) = !prev_free in
              (* an out-of-space answer is believed only when space really is short *)
              let ok = agree s' r o &&
                       (match h, r with
+                       | HShort _, RWritten _ -> nospace_plausible c (n_of_int pfb) (n_of_int pfi)
                        | HNoSpace, RStatus ERR ->
                          let (s2, r2) = step !params !st c HNone in
                          ignore s2;
                          (match r2 with RStatus ERR | RStatus STALE | RStatus NOTSUPP -> true
                                       | _ -> nospace_plausible c (n_of_int pfb) (n_of_int pfi))
                        | _ -> true) in
-             ok, (if ok then "" else Printf.sprintf " expected=%s observed_code=%d" (show_reply r) (int_of_n (code_of o)))
+             let diag = match r, o with
+               | RData (dd, _), OData (N0, od, _) ->
+                 let rec pre a b k = match a, b with
+                   | _, [] -> Printf.sprintf " short-read got=%d want=%d prefix=1 free=%d" (List.length od) (List.length dd) pfb
+                   | x :: a', y :: b' -> if x = y then pre a' b' (k+1) else Printf.sprintf " data-differs at=%d" k
+                   | [], _ -> " long-read" in
+                 if List.length od < List.length dd then pre dd od 0
+                 else if List.length od > List.length dd then " long-read"
+                 else pre dd od 0
+               | _ -> "" in
+             ok, (if ok then "" else Printf.sprintf " expected=%s observed_code=%d%s" (show_reply r) (int_of_n (code_of o)) diag)
            | _ -> true, "" in
          let abs_s, nabs, nwf, alloc_ok =
            if do_abs then begin
